@@ -7,6 +7,7 @@ package c20
 
 import (
 	"fmt"
+	"math"
 	"runtime"
 	"sort"
 	"sync"
@@ -25,7 +26,8 @@ const ms = time.Millisecond
 // Delay
 
 // the last two (random and fixed cases only) are not whole milliseconds
-var delayWaits = []time.Duration{5 * ms, 20 * ms, 50 * ms, 900 * time.Microsecond, 7*ms + 300*time.Microsecond}
+// the last one is the largest Duration ("never, until it is stopped or reset"): it must not fire within any case
+var delayWaits = []time.Duration{5 * ms, 20 * ms, 50 * ms, 900 * time.Microsecond, 7*ms + 300*time.Microsecond, time.Duration(math.MaxInt64)}
 
 // DelayOp: one Delay(wait, fn) started Gap after the previous one; Stop: 0 none,
 // 1 = Stop 1ns before it is due, 2 = exactly when due, 3 = 1ns after, 4 = at half time.
@@ -71,6 +73,13 @@ func delayProp(c DelayCase, r *pbt.R) error {
 	for i, op := range c.Ops {
 		at += time.Duration(op.Gap) * ms
 		rc := &rec{start: at, wait: delayWaits[((op.Wait%len(delayWaits))+len(delayWaits))%len(delayWaits)], stopAt: -1}
+		if rc.wait > time.Hour {
+			// never due within the case: an optional Stop at 10ms, which must report that it stopped the timer
+			if op.Stop != 0 {
+				rc.stopAt = at + 10*ms
+			}
+			op.Stop = 0
+		}
 		switch op.Stop {
 		case 1:
 			rc.stopAt = at + rc.wait - 1
@@ -103,6 +112,16 @@ func delayProp(c DelayCase, r *pbt.R) error {
 	mu.Lock()
 	defer mu.Unlock()
 	for i, rc := range recs {
+		if rc.wait > time.Hour {
+			if len(rc.fired) != 0 {
+				return fmt.Errorf("%+v: Delay #%d with the largest Duration as wait (called at %v) ran at %v", c.Ops, i, rc.start, rc.fired[0])
+			}
+			if rc.stopAt >= 0 && !rc.stopRet {
+				return fmt.Errorf("%+v: Delay #%d with the largest Duration as wait: Stop at %v reported that the timer had already fired", c.Ops, i, rc.stopAt)
+			}
+			r.NonTrivialIf(true, "largest Duration as wait")
+			continue
+		}
 		due := rc.start + rc.wait
 		where := fmt.Sprintf("%+v: Delay #%d (called at %v, wait %v, Stop at %v)", c.Ops, i, rc.start, rc.wait, rc.stopAt)
 		if len(rc.fired) > 1 {
@@ -916,7 +935,7 @@ func TestProp(t *testing.T) {
 			Enum: delayEnum, Gen: delayGen, Prop: delayProp,
 			OutOfEnum:  func(c DelayCase, th bool) bool { return len(c.Ops) > 4 },
 			RapidQuick: 300, RapidThorough: 5000, Bubble: true,
-			Fixed: []DelayCase{{Ops: []DelayOp{{Wait: 3}}}, {Ops: []DelayOp{{Wait: 4}, {Gap: 1, Wait: 3, Stop: 1}}}},
+			Fixed: []DelayCase{{Ops: []DelayOp{{Wait: 3}}}, {Ops: []DelayOp{{Wait: 4}, {Gap: 1, Wait: 3, Stop: 1}}}, {Ops: []DelayOp{{Wait: 5}, {Gap: 2, Wait: 5, Stop: 1}, {Wait: 0}}}},
 		},
 		&pbt.Check[DebCase]{
 			Name: "debounce",
